@@ -337,7 +337,19 @@ Definition eval_expr (old : etable) (r : row) (to_ty : str) (x : expr) : eres va
       end
   end.
 
-(** the plain columns of the new row: copied, or the column default *)
+(** the value the new row gets in plain column [c]: the expression paired with [c] in the
+    INSERT column list (position-wise), or the column default when [c] is not listed *)
+Definition col_value (old : etable) (r : row) (c : rcol) (toC : list str) (fromC : list expr) : eres value :=
+  match index_of (rc_name c) toC with
+  | None => EOk (rc_defval c)
+  | Some i =>
+      match nth_error fromC i with
+      | None => EErr EArity
+      | Some x => eval_expr old r (rc_type c) x
+      end
+  end.
+
+(** the plain columns of the new row *)
 Fixpoint copy_row (old : etable) (r : row) (cols : list rcol) (toC : list str) (fromC : list expr)
   : eres row :=
   match cols with
@@ -345,16 +357,7 @@ Fixpoint copy_row (old : etable) (r : row) (cols : list rcol) (toC : list str) (
   | c :: cols' =>
     if rc_gen c then copy_row old r cols' toC fromC
     else
-      let v :=
-        match index_of (rc_name c) toC with
-        | None => EOk (rc_defval c)
-        | Some i =>
-            match nth_error fromC i with
-            | None => EErr EArity
-            | Some x => eval_expr old r (rc_type c) x
-            end
-        end in
-      match v with
+      match col_value old r c toC fromC with
       | EErr e => EErr e
       | EOk v =>
           if rc_notnull c && is_null v then EErr ENotNull
